@@ -775,6 +775,9 @@ func writeEvidence(spec *Spec, tier string, seed int64, results []*runResult, ex
 	for _, a := range spec.Assumptions {
 		assum[a] = true
 	}
+	assum["gosym's encoding of go/ssa (cross-validated each run by replaying sampled path models natively: traces_validated_against_impl) and the SMT solver (z3 4.8.12) are trusted"] = true
+	assum["everything outside the stated bounds (coverage.bounds) is outside the claim"] = true
+	ev.Assumptions = []string{}
 	for a := range assum {
 		ev.Assumptions = append(ev.Assumptions, a)
 	}
